@@ -121,6 +121,73 @@ def check_p8_pairs(k, res):
         res.outcome(('p8pairs', k == 16))
 
 
+HIST_OPS = ['good', 'good-low', 'raw-glyph', 'bad-utf8', 'outside-table', 'raw-in-gfx-label', 'write']
+
+
+def _hist_file(op):
+    head = b'pico-8 cartridge // http://www.pico-8.com\nversion 33\n__lua__\n'
+    if op == 'good':
+        code = b''.join(b'--' + bytes([b]) + b'|\n' for b in range(16, 256)) + b'x="\x8e\x97"\n'
+    elif op == 'good-low':
+        code = b'-- \x10\x1f\x7f\x80\xff plain\nprint("\x8b")\n'
+    else:
+        code = None
+    if code is not None:
+        lua = _mods()
+        return head + lua.p8scii_to_unicode(code).encode('utf-8') + b'__gfx__\n', code
+    if op == 'raw-glyph':
+        return head + b'-- old cart \x8e raw\nx=1\n', None
+    if op == 'bad-utf8':
+        return head + b'x=1\n-- \xe2\x28\xa1 \xc3\n', None
+    if op == 'outside-table':
+        return head + 'x=1 -- \u4e2d\u6587 \u00e9\n'.encode('utf-8'), None
+    if op == 'raw-in-gfx-label':
+        return head + b'x=1\n__gfx__\n\x8e\x8e\n__label__\n\xff\n', None
+    raise ValueError(op)
+
+
+def check_history(seq, res, firsts):
+    """Reads (and one write) of .p8 files one after another in ONE process: the text conversion of a well-formed file
+    does not depend on which files -- well-formed or not -- were handled before it, and what happens to a malformed file
+    is what happens to it as the first file of a process (firsts: op -> outcome alone)."""
+    import io
+    from pico8.game.formatter.p8 import P8Formatter
+    from lib import carts
+    case = {'kind': 'history', 'seq': list(seq)}
+    res.evaluations += 1
+    res.nontriv(('hist', tuple(seq)))
+    for i, op in enumerate(seq):
+        res.transitions += 1
+        if op == 'write':
+            try:
+                code = b'--\x8e\x10|\n'
+                buf = io.BytesIO()
+                P8Formatter.to_file(carts.make_game({}, version=33, code_lines=[code]), buf, filename='w.p8')
+                out = ('text', buf.getvalue().split(b'__lua__\n')[1].split(b'__gfx__')[0])
+            except Exception as e:
+                out = ('raise', type(e).__name__)
+        else:
+            raw, code = _hist_file(op)
+            try:
+                g = P8Formatter.from_file(io.BytesIO(raw), filename='h.p8')
+                out = ('text', b''.join(g.lua.to_lines()))
+            except Exception as e:
+                out = ('raise', type(e).__name__)
+            if code is not None and out != ('text', code):
+                res.violation('C15|history|%s|after=%s' % (op, '+'.join(seq[:i]) or 'nothing'),
+                              'a well-formed .p8 read after %r in the same process gives %r, the file says %r' % (
+                                  seq[:i], out[1][:60], code[:60]), case)
+                return
+        if op not in firsts:
+            firsts[op] = out
+        elif firsts[op] != out:
+            res.violation('C15|history|%s|differs|after=%s' % (op, '+'.join(seq[:i]) or 'nothing'),
+                          'handling %r after %r gives %r; as the first file of a process it gives %r' % (
+                              op, seq[:i], out, firsts[op]), case)
+            return
+    res.outcome(('history', tuple(firsts[o][0] for o in seq)))
+
+
 def long_payloads():
     """One-line payloads whose length, in P8SCII characters or in the UTF-8 bytes of their .p8 spelling, sits on either
     side of 2^15 and 2^16 (the code limit is 65535 characters; a glyph takes 3-7 UTF-8 bytes)."""
@@ -171,6 +238,7 @@ def shards(tier, seed):
         items.append(('pairs', lo, lo + 16))
     items.append(('triples', tier))
     items.append(('p8file',))
+    items.append(('history', 3 if tier == 'quick' else 4))
     items += [('longlines', k) for k in range(len(long_payloads()))]
     items += [('p8pairs', k) for k in range(16)] + [('p8pairs', 16), ('p8pairs', 17)]
     return items
@@ -217,6 +285,17 @@ def run_shard(item):
             for b in range(256):
                 check_string(bytes([a, b]), res)
         res.sample({'bytes': bytes([item[1], 0x8e])})
+        return res
+    if item[0] == 'history':
+        import itertools
+        firsts = {}
+        for op in HIST_OPS:
+            check_history((op,), res, firsts)
+        for n in range(2, item[1] + 1):
+            for seq in itertools.product(HIST_OPS, repeat=n):
+                check_history(seq, res, firsts)
+        res.states += len(HIST_OPS) ** item[1]
+        res.sample({'history': ['raw-glyph', 'good'], 'meaning': 'a malformed .p8 is read, then a well-formed one, in one process'})
         return res
     if item[0] == 'p8pairs':
         check_p8_pairs(item[1], res)
@@ -321,6 +400,11 @@ def replay(case):
         check_longline(case['k'], res)
     elif case.get('kind') == 'p8file':
         res.merge(run_shard(('p8file',)))
+    elif case.get('kind') == 'history':
+        firsts = {}
+        for op in HIST_OPS:
+            check_history((op,), res, firsts)
+        check_history(tuple(case['seq']), res, firsts)
     elif case.get('kind') == 'string':
         check_string(case['bytes'], res)
     else:
